@@ -158,6 +158,9 @@ class Inliner:
             holder, fld = st, "value"
         elif isinstance(st, ast.AnnAssign) and st.value is not None and _pure_target(st.target):
             holder, fld = st, "value"
+        elif isinstance(st, ast.AugAssign) and isinstance(st.target, ast.Name):
+            # ``local += f(...)``: the local is read first, but nothing f does can rebind it
+            holder, fld = st, "value"
         elif isinstance(st, ast.If):
             holder, fld = st, "test"
         else:
